@@ -410,7 +410,7 @@ seed("c08-cg-ok-untested", "C08", SP, """            resid = r.norm_2() / normb;
             if resid <= tol && self.true_residual( b, x, normb ) <= tol { return Ok( i ); }
             rho_1 = rho;""", """            resid = r.norm_2() / normb;
             if ( resid <= tol && self.true_residual( b, x, normb ) <= tol ) || i == max_iter { return Ok( i ); }
-            rho_1 = rho;""", "ok-tested")
+            rho_1 = rho;""", "confirmed-success")
 seed("c08-cg-unconfirmed", "C08", SP, """            resid = r.norm_2() / normb;
             if resid <= tol && self.true_residual( b, x, normb ) <= tol { return Ok( i ); }
             rho_1 = rho;""", """            resid = r.norm_2() / normb;
@@ -432,7 +432,7 @@ seed("n-c08-confirm-let", "C08", SP, """            if resid <= tol && self.true
                 if confirmed <= tol { return Ok( i ); }
             }
             rho_1 = rho;""", "SILENT", "neutral: the confirmation spelled inline in a nested test")
-seed("c08-cg-r-wrong-coef2", "C08", SP, "            r -= q.clone() * alpha;", "            r -= q.clone() * rho;", "residual-tracks-iterate/solve_cg")
+seed("c08-cg-r-wrong-coef2", "C09", SP, "            r -= q.clone() * alpha;", "            r -= q.clone() * rho;", "residual-tracks-iterate/solve_cg")
 seed("c08-cg-x-hoisted", "C08", SP, """        if resid <= tol { return Ok( 0 ); }
 
         for i in 1..=max_iter {
@@ -441,18 +441,18 @@ seed("c08-cg-x-hoisted", "C08", SP, """        if resid <= tol { return Ok( 0 );
 
         for i in 1..=max_iter {
             //z = r; //could have preconditioner here z = M.solve(r);""", "x-untouched")
-seed("c08-bicgstab-halfstep-no-x", "C08", SP, """            s = r.clone() - v.clone() * alpha;
+seed("c08-bicgstab-halfstep-no-x", "C09", SP, """            s = r.clone() - v.clone() * alpha;
             *x += alpha * phat.clone();
             resid = s.norm_2() / normb;
             if resid <= tol && self.true_residual( b, x, normb ) <= tol { return Ok( i ); }""", """            s = r.clone() - v.clone() * alpha;
             resid = s.norm_2() / normb;
             if resid <= tol && self.true_residual( b, x, normb ) <= tol { return Ok( i ); }
             *x += alpha * phat.clone();""", "tested-vector/solve_bicgstab")
-seed("c08-bicgstab-x-omega-dropped", "C08", SP, "            *x += omega * shat.clone();\n", "", "residual-tracks-iterate/solve_bicgstab")
-seed("c08-qmr-r-plus", "C08", SP, "            r -= s.clone();", "            r += s.clone();", "residual-tracks-iterate/solve_qmr")
-seed("c08-qmr-s-wrong", "C08", SP, "                s = eta * p_tld.clone() + ( theta_1 * theta_1 * gamma * gamma ) * s;", "                s = eta * p_tld.clone() + ( theta_1 * theta * gamma * gamma ) * s;", "residual-tracks-iterate/solve_qmr")
+seed("c08-bicgstab-x-omega-dropped", "C09", SP, "            *x += omega * shat.clone();\n", "", "residual-tracks-iterate/solve_bicgstab")
+seed("c08-qmr-r-plus", "C09", SP, "            r -= s.clone();", "            r += s.clone();", "residual-tracks-iterate/solve_qmr")
+seed("c08-qmr-s-wrong", "C09", SP, "                s = eta * p_tld.clone() + ( theta_1 * theta_1 * gamma * gamma ) * s;", "                s = eta * p_tld.clone() + ( theta_1 * theta * gamma * gamma ) * s;", "residual-tracks-iterate/solve_qmr")
 seed("c08-bicg-loop-le", "C08", SP, "        while iter < max_iter {", "        while iter <= max_iter {", "budget/solve_bicg")
-seed("c08-bicg-test-rr", "C08", SP, "            if itol == 1 { err = r.norm_2() / bnrm; }\n            if itol == 2 { err = z.norm_2() / bnrm; }\n            if err <= tol &&",
+seed("c08-bicg-test-rr", "C09", SP, "            if itol == 1 { err = r.norm_2() / bnrm; }\n            if itol == 2 { err = z.norm_2() / bnrm; }\n            if err <= tol &&",
      "            if itol == 1 { err = rr.norm_2() / bnrm; }\n            if itol == 2 { err = z.norm_2() / bnrm; }\n            if err <= tol &&", "tested-vector/solve_bicg")
 seed("c08-cg-initial-residual-sign", "C08", SP, """        let mut normb = b.norm_2();
         let mut r = b.clone() - self.multiply( x );
@@ -471,9 +471,9 @@ seed("c08-cg-initial-residual-sign", "C08", SP, """        let mut normb = b.nor
 
         for i in 1..=max_iter {
             //z = r;""", "initial-residual/solve_cg")
-seed("c08-qmr-breakdown-ok", "C08", SP, "            if gamma == 0.0 { return Err( resid ); }", "            if gamma == 0.0 { return Ok( i ); }", "ok-tested/solve_qmr")
-seed("c08-cg-q-from-z", "C08", SP, "            q = self.multiply( &p );", "            q = self.multiply( &z );", "residual-tracks-iterate/solve_cg")
-seed("c08-bicgstab-tol-scaled", "C08", SP, "            if resid < tol && self.true_residual( b, x, normb ) <= tol { return Ok( i ); }", "            if resid < tol * 10.0 && self.true_residual( b, x, normb ) <= tol * 10.0 { return Ok( i ); }", "ok-tested/solve_bicgstab")
+seed("c08-qmr-breakdown-ok", "C08", SP, "            if gamma == 0.0 { return Err( resid ); }", "            if gamma == 0.0 { return Ok( i ); }", "confirmed-success/solve_qmr")
+seed("c08-cg-q-from-z", "C09", SP, "            q = self.multiply( &p );", "            q = self.multiply( &z );", "residual-tracks-iterate/solve_cg")
+seed("c08-bicgstab-tol-scaled", "C08", SP, "            if resid < tol && self.true_residual( b, x, normb ) <= tol { return Ok( i ); }", "            if resid < tol * 10.0 && self.true_residual( b, x, normb ) <= tol * 10.0 { return Ok( i ); }", "confirmed-success/solve_bicgstab")
 seed("c09-cg-zero-norm-dropped", "C09", SP, """        let mut r = b.clone() - self.multiply( x );
 
         if normb == 0.0 { normb = 1.0; }""", """        let mut r = b.clone() - self.multiply( x );
@@ -824,3 +824,9 @@ seed("c20-trapezium-var-guard-removed", "C20", ME2, '        if var >= self.nvar
 seed("c20-mesh1d-trapezium-var-guard-removed", "C20", "src/mesh1d.rs", '        if var >= self.nvars { panic!( "Mesh1D trapezium: index larger than # variables." ); }\n', "", "reject/mesh1d::Mesh1D<f64, f64>::trapezium/var", "the original defect")
 seed("c03-normp-inf-unhandled", "C03", "src/matrix/functions.rs", "        if p.is_infinite() { return self.norm_max(); } // the limit p -> inf ( the formula below gives 1 for every matrix )\n", "", "norm-orientation/norm_p/inf", "the original defect")
 seed("c03-normp-inf-wrong-norm", "C03", "src/matrix/functions.rs", "        if p.is_infinite() { return self.norm_max(); }", "        if p.is_infinite() { return self.norm_inf(); }", "norm-orientation/norm_p/inf", "norm_inf is the max row sum, not the entrywise max")
+
+# ---------------------------------------------------------------- C09 breakdown-free
+seed("c09-cg-indefinite-divisor", "C09", SP, "            alpha = rho / p.dot( &q );", "            alpha = rho / z.dot( &q );", "breakdown-free/solve_cg/inner-product#1")
+seed("c09-bicgstab-new-indefinite", "C09", SP, "            omega = t.dot( &s ) / t.dot( &t );", "            omega = t.dot( &s ) / t.dot( &shat );", "breakdown-free/solve_bicgstab/inner-product#4")
+seed("n-c09-cg-dot-commuted", "C09", SP, "            alpha = rho / p.dot( &q );", "            alpha = rho / q.dot( &p );", "SILENT", "neutral: the inner product is symmetric")
+seed("n-c09-bicgstab-dots-named", "C09", SP, "            omega = t.dot( &s ) / t.dot( &t );", "            let ts = t.dot( &s );\n            let tt = t.dot( &t );\n            omega = ts / tt;", "SILENT", "neutral: naming the two inner products")
